@@ -758,9 +758,118 @@ void run_shared_case(Args const& a, std::uint64_t c, Rng& rng)
 	r.sig(hstr(desc)); r.sample(desc);
 }
 
+// ---------------------------------------------------------------------------------------------
+// A connector gives up (close or destroy) at some point of its handshake -- before its SYN has arrived, while the
+// SYN waits for an accept, between SYN and SYN+ACK, or just after establishment -- next to connectors that behave.
+// The acceptor runs an accept loop with one of the three overloads. What is judged: no accept ever fails (nobody
+// cancels one), and every connector that did not give up is connected and paired with an accepted socket (tokens
+// both ways). Accepted sockets whose peer gave up are not judged.
+void run_giveup_case(Args const& a, std::uint64_t c, Rng& rng)
+{
+	(void)a; (void)c;
+	Report& r = R();
+	Net net; EvLog log; OpLog ops;
+	net.log = &log;
+	static std::vector<std::int64_t> const lats = {1000, 1000000, 5000000, 20000000};
+	QSpec q; q.bw = rng.coin(1, 3) ? 50000000 : 0; q.lat_ns = rng.pick(lats); q.cap = 0;
+	net.def_net = {q};
+	ip::address const SA = addr("10.0.1.1");
+	int const ncli = 2 + rng.choose(3);
+	int const overload = rng.choose(3);
+	std::int64_t const accept_delay = rng.pick(std::vector<std::int64_t>{0, 0, 3 * q.lat_ns, 100000000});
+	std::unique_ptr<sim::simulation> sim(new sim::simulation(net));
+	M().last_clock = 0;
+	std::unique_ptr<asio::io_context> ns(new asio::io_context(*sim, SA));
+	std::vector<std::unique_ptr<asio::io_context>> nc;
+	for (int i = 0; i < ncli; ++i) nc.emplace_back(new asio::io_context(*sim, addr(fmt("10.1.%d.2", i + 1).c_str())));
+	std::unique_ptr<Sched> sched(new Sched(*ns));
+	std::unique_ptr<Runner> runner(new Runner(*sim));
+	ip::tcp::endpoint const ep(SA, 5000);
+	std::unique_ptr<ip::tcp::acceptor> acc(new ip::tcp::acceptor(*ns));
+	{ error_code ec; API(acc->open(ip::tcp::v4(), ec)); API(acc->bind(ep, ec)); API(acc->listen(10, ec)); }
+	struct Cl { std::unique_ptr<ip::tcp::socket> s; TokIO tok; bool gives_up = false, destroy = false, gave_up = false; std::int64_t t0 = 0, t_give = 0; int ec = -999; bool done = false; };
+	struct Ac { std::unique_ptr<ip::tcp::socket> s; TokIO tok; ip::tcp::endpoint pe; };
+	std::vector<std::unique_ptr<Cl>> cl; std::vector<std::unique_ptr<Ac>> ac;
+	int accept_errors = 0, first_accept_error = 0; std::size_t accepts_ok = 0;
+	std::string desc = fmt("connectors giving up during the handshake: accept loop with overload %d started %" PRId64 " us after the first connect, net %s;", overload, accept_delay / 1000, q.str().c_str());
+	std::function<void()> post_accept = [&]() {
+		if (ac.size() >= std::size_t(ncli) + 2) return;
+		ac.emplace_back(new Ac()); Ac* A = ac.back().get();
+		std::snprintf(A->tok.mine.b, 16, "A00.%03d........", int(ac.size() - 1));
+		OpPtr op = ops.make("tcp.accept", 100);
+		auto done = [&, A](error_code const& ec) {
+			if (ec) { ++accept_errors; if (!first_accept_error) first_accept_error = ec.value(); }
+			else { ++accepts_ok; A->tok.s = A->s.get(); A->tok.ops = &ops; A->tok.obj = 200 + int(accepts_ok); A->tok.start(); }
+			if (accept_errors < 3) post_accept();
+		};
+		if (overload == 0) { A->s.reset(new ip::tcp::socket(*ns)); API(acc->async_accept(*A->s, track1(op, done))); }
+		else if (overload == 1) { A->s.reset(new ip::tcp::socket(*ns)); API(acc->async_accept(*A->s, A->pe, track1(op, done))); }
+		else API(acc->async_accept([&, A, op, done](error_code const& ec, ip::tcp::socket peer) mutable {
+			on_invoke(*op, ec, 0); if (!ec) A->s.reset(new ip::tcp::socket(std::move(peer))); done(ec); }));
+	};
+	std::int64_t const rtt = 2 * q.lat_ns;
+	for (int i = 0; i < ncli; ++i)
+	{
+		cl.emplace_back(new Cl()); Cl* C = cl.back().get();
+		C->gives_up = i == 0 || rng.coin(1, 3); C->destroy = rng.coin();
+		C->t0 = i == 0 ? 0 : rng.pick(std::vector<std::int64_t>{0, 1000, rtt / 2, rtt, 3 * rtt, 200000000});
+		// relative to its own connect: at once, before the SYN lands, between SYN and SYN+ACK, right at / after completion
+		C->t_give = rng.pick(std::vector<std::int64_t>{0, 1, q.lat_ns / 2, q.lat_ns, q.lat_ns + q.lat_ns / 2, rtt, rtt + 1000, 3 * rtt});
+		std::snprintf(C->tok.mine.b, 16, "C%03d............", i);
+		desc += fmt(" cli%d t=%" PRId64 "us%s", i, C->t0 / 1000, C->gives_up ? fmt(" gives up (%s) %" PRId64 " ns later", C->destroy ? "destroy" : "close", C->t_give).c_str() : "");
+		sched->at(C->t0, [&, C, i]() {
+			C->s.reset(new ip::tcp::socket(*nc[std::size_t(i)]));
+			OpPtr op = ops.make("tcp.connect", i);
+			API(C->s->async_connect(ep, track1(op, [&, C, i](error_code const& ec) {
+				C->ec = ec.value(); C->done = true;
+				if (ec || C->gave_up || !C->s) return;
+				C->tok.s = C->s.get(); C->tok.ops = &ops; C->tok.obj = i; C->tok.start(); })));
+		});
+		if (C->gives_up)
+			sched->at(C->t0 + C->t_give, [&, C]() {
+				if (!C->s) return;
+				C->gave_up = true;
+				if (C->destroy) { API(C->s.reset()); } else { error_code ec; API(C->s->close(ec)); }
+				r.count("connectors_that_gave_up_during_or_right_after_the_handshake");
+			});
+	}
+	r.cur_desc = desc;
+	sched->at(accept_delay, [&]() { post_accept(); });
+	sched->start();
+	runner->run();
+	if (accept_errors)
+		r.violation("C07", "accept-failed-although-nobody-cancelled-it", fmt("%d accept(s) of the loop completed with an error (first: %d) while the acceptor stayed open and listening", accept_errors, first_accept_error));
+	for (int i = 0; i < ncli; ++i)
+	{
+		Cl& C = *cl[std::size_t(i)];
+		if (C.gives_up) continue;
+		if (!C.done || C.ec != 0) { r.violation("C07", "connect-next-to-a-connector-that-gave-up:not-connected", fmt("client %d (which did not give up) %s", i, C.done ? fmt("failed with %d", C.ec).c_str() : "never completed its connect")); continue; }
+		// paired with exactly one accepted socket, tokens both ways
+		Ac* peer = nullptr;
+		for (auto& A : ac) if (A->tok.got.size() >= 16 && std::memcmp(A->tok.got.data(), C.tok.mine.b, 16) == 0) peer = A.get();
+		if (!peer) r.violation("C07", "connect-next-to-a-connector-that-gave-up:not-paired", fmt("client %d is connected but no accepted socket received its token", i));
+		else if (C.tok.got.size() != 16 || std::memcmp(C.tok.got.data(), peer->tok.mine.b, 16) != 0 || peer->tok.got.size() != 16)
+			r.violation("C07", "connect-next-to-a-connector-that-gave-up:cross-talk", fmt("client %d and the accepted socket that got its token did not exchange exactly their two tokens", i));
+		else r.count("connectors_paired_next_to_one_that_gave_up");
+	}
+	r.count("giveup_cases");
+	runner.reset(); sched.reset();
+	for (auto& C : cl) C->s.reset();
+	for (auto& A : ac) A->s.reset();
+	acc.reset(); nc.clear(); ns.reset(); sim.reset();
+	r.count("clock_samples", M().clock_samples); M().clock_samples = 0;
+	r.sig(hstr(desc)); r.sample(desc);
+}
+
 void run_case(Args const& a, std::uint64_t c)
 {
 	bool const c13 = a.prop == "C13";
+	if (!c13 && c % 10 == 8)
+	{
+		Rng rng(hcomb(hcomb(a.seed, 0xC07B), c));
+		run_giveup_case(a, c, rng);
+		return;
+	}
 	if (!c13 && c % 10 == 9)
 	{
 		Rng rng(hcomb(hcomb(a.seed, 0xC07A), c));
